@@ -10,7 +10,7 @@
    covariance), one frame at a time, the supplied rotation vs gravity, the increments of the C01 Exp model. *)
 From Coq Require Import QArith Reals List.
 Import ListNotations.
-From PV Require Import Base.Num Base.Mat Model.Cumops Model.LieGroup Model.LieExp Model.IMU Proofs.LieGroup Proofs.IMU Proofs.IMU2 Proofs.IMU3.
+From PV Require Import Base.Num Base.Mat Model.Cumops Model.LieGroup Model.LieExp Model.IMU Proofs.LieGroup Proofs.IMU Proofs.IMU2 Proofs.IMU3 Proofs.IMU4.
 Close Scope Q_scope.
 Local Open Scope R_scope.
 #[local] Remove Hints NumQ NumZ : typeclass_instances.
@@ -345,6 +345,21 @@ Example C16_batch_hypotheses_satisfiable :
   rot_is_integrated ((0, 1, 0), 0) [{| i_dt := 1; i_inc := ((1, 0, 0), 0); i_acc := (0, 0, 0); i_grot := Some (SO3_mul ((0, 1, 0), 0) ((1, 0, 0), 0)); i_jr := mid3 |}].
 Proof. exact batch_hypotheses_satisfiable. Qed.
 
+(* exception safety of the modelled object (Proofs/IMU4.v): a call that raises leaves the carried buffers untouched, so the
+   calls of a history that return give exactly what they give in the history without the rejected calls - every
+   later call, every output.  (About the model; the implementation is held to it by the tie's oracle
+   `changed-by-a-call-that-raised`, added after seeded change C16-9.) *)
+Theorem C16_raising_calls_are_transparent :
+  forall (c : cfg R) (cs : list (call R)) (st : list (istate R)),
+  run_calls c st (returning c st cs) = map Some (somes (run_calls c st cs)).
+Proof. exact raising_calls_transparent. Qed.
+
+Theorem C16_rejected_call_in_front_changes_nothing :
+  forall (c : cfg R) dt inc jr acc rot (cs : list (call R)) (st : list (istate R)),
+  forward c st dt inc jr acc rot = None ->
+  run_calls c st ((dt, inc, jr, acc, rot) :: cs) = None :: run_calls c st cs.
+Proof. exact rejected_call_in_front. Qed.
+
 Print Assumptions C16_integrate_is_recursion.
 Print Assumptions C16_forward_is_recursion.
 Print Assumptions C16_compose_is_predict.
@@ -382,3 +397,5 @@ Print Assumptions C16_gyro_taylor_increment_not_unit.
 Print Assumptions C16_gyro_unit_example.
 Print Assumptions C16_batch_hypotheses_satisfiable.
 Print Assumptions C16_non_unit_velocity_not_chunk_invariant.
+Print Assumptions C16_raising_calls_are_transparent.
+Print Assumptions C16_rejected_call_in_front_changes_nothing.
